@@ -343,7 +343,9 @@ def receiveFragment (before : FragCtx) (data : Bytes) : M FragCtx := do
     return before
   match ok1, parsed with
   | true, some (d, ix, l) => do
-    if ix = 0 ∨ l = 0 ∨ ix > l then unbind     -- fragmentIsInvalid: discarded
+    -- fragmentIsInvalid (illegal numbering) or out of sequence (neither the first piece nor the next
+    -- one): the piece is discarded, it commits to nothing and binds nothing
+    if (ix = 0 ∨ l = 0 ∨ ix > l) ∨ (ix ≠ 1 ∧ ¬((before.index + 1) % 65536 = ix ∧ before.len = l)) then unbind
     return fragAccept before d ix l
   | _, _ => do
     unbind
@@ -910,14 +912,14 @@ def startAuthenticateExpect1 (K : Crypto) (question secret : Bytes) : M (List Tl
   let c ← getc
   if c.msgState ≠ .encrypted then throw .cantAuthenticate
   let sec ← smpSecretFor K true secret
-  modc fun c => { c with smp := { c.smp with secret := some sec } }
   let len ← paramLen
   match allSome (← randMPIs 4 len) with
   | some [a2, a3, r2, r3] =>
     let s1 := smp1Gen K a2 a3 r2 r3
     let msg := if question.isEmpty then s1.msg else { s1.msg with hasQuestion := true, question := question }
     let s1 := { s1 with msg := msg }
-    modc fun c => { c with smp := { c.smp with s1 := some s1, state := some .expect2 } }
+    -- repaired code: the secret is stored only once the call can no longer be refused
+    modc fun c => { c with smp := { c.smp with secret := some sec, s1 := some s1, state := some .expect2 } }
     return [msg.tlv]
   | _ => throw .shortRandom
 
